@@ -310,7 +310,8 @@ def decide(prop_id: str, tier: str, seed: int) -> int:
     lines = []
     for d in ctx.disagreements:
         if is_known(d):
-            lines.append(f"KNOWN-FINDING: property={prop_id} {known[(prop_id, d.key)].get('what', d.what)}")
+            what = re.sub(r"^(known|KNOWN-FINDING):?\s*property=\S+\s*", "", str(known[(prop_id, d.key)].get("what", d.what)))
+            lines.append(f"KNOWN-FINDING: property={prop_id} {what}")
             continue
     new_viol = [d for d in violating(ctx) if not is_known(d)]
     tie_only = [d for d in ctx.disagreements if not d.spec_violated and not is_known(d)]
